@@ -109,4 +109,10 @@ def fmtVal (E M e m : Nat) : Rat :=
   if e = 0 then (m : Rat) * (2 : Rat) ^ (1 - B - M)
   else ((2 ^ M + m : Nat) : Rat) * (2 : Rat) ^ ((e : Int) - B - M)
 
+/-- transcriptions of `FPFormat.max_absolute_value`, `min_absolute_normal`, `min_absolute_subnormal` (exact rationals;
+    the Python expressions are exact in binary64 for every E ≤ 8, M ≤ 23) -/
+def maxAbsValue (E M : Nat) : Rat := (2 : Rat) ^ ((2 ^ (E - 1) - 1 : Nat) : Int) * (2 - (2 : Rat) ^ (-(M : Int)))
+def minAbsNormal (E : Nat) : Rat := (2 : Rat) ^ ((1 : Int) - (2 ^ (E - 1) : Nat))
+def minAbsSubnormal (E M : Nat) : Rat := minAbsNormal E * (2 : Rat) ^ (-(M : Int))
+
 end USModel.F32
